@@ -190,10 +190,17 @@ impl Duration {
     #[verifier::external_body] pub fn saturating_mul(self, rhs: u32) -> (r: Duration) ensures r.ns@ == natmin(self.ns@ * rhs as nat, dmax()) { unimplemented!() }
     #[verifier::external_body] pub fn saturating_add(self, rhs: Duration) -> (r: Duration) ensures r.ns@ == natmin(self.ns@ + rhs.ns@, dmax()) { unimplemented!() }
     #[verifier::external_body] pub fn saturating_sub(self, rhs: Duration) -> (r: Duration) ensures r.ns@ == (if self.ns@ >= rhs.ns@ { (self.ns@ - rhs.ns@) as nat } else { 0 }) { unimplemented!() }
+    // (further std observers / total operations that edits commonly reach for)
+    #[verifier::external_body] pub fn checked_sub(self, rhs: Duration) -> (r: Option<Duration>) ensures r is Some <==> self.ns@ >= rhs.ns@, r is Some ==> r->Some_0.ns@ == self.ns@ - rhs.ns@ { unimplemented!() }
+    #[verifier::external_body] pub fn checked_add(self, rhs: Duration) -> (r: Option<Duration>) ensures r is Some <==> self.ns@ + rhs.ns@ <= dmax(), r is Some ==> r->Some_0.ns@ == self.ns@ + rhs.ns@ { unimplemented!() }
+    #[verifier::external_body] pub fn is_zero(&self) -> (r: bool) ensures r == (self.ns@ == 0) { unimplemented!() }
+    #[verifier::external_body] pub fn as_secs(&self) -> (r: u64) requires self.ns@ <= dmax() ensures r as nat == self.ns@ / 1000000000 { unimplemented!() }
 }
 impl Instant {
     #[verifier::external_body] pub fn now() -> (r: Instant) { unimplemented!() }
     #[verifier::external_body] pub fn elapsed(&self) -> (r: Duration) { unimplemented!() }
+    #[verifier::external_body] pub fn saturating_duration_since(&self, earlier: Instant) -> (r: Duration) ensures r.ns@ == (if self.t@ >= earlier.t@ { (self.t@ - earlier.t@) as nat } else { 0 }) { unimplemented!() }
+    #[verifier::external_body] pub fn checked_duration_since(&self, earlier: Instant) -> (r: Option<Duration>) ensures r is Some <==> self.t@ >= earlier.t@, r is Some ==> r->Some_0.ns@ == self.t@ - earlier.t@ { unimplemented!() }
 }
 pub mod cmp {
     use super::*;
